@@ -18,9 +18,15 @@ type vWorld struct {
 func vMkWorld() *vWorld {
 	vInstall()
 	w := &vWorld{}
-	w.r = time.Duration(verifInt("recovery"))
-	w.d = time.Duration(verifInt("delay"))
-	verifAssume(w.r >= 0 && w.r < 1<<40 && w.d >= 0 && w.d < 1<<40)
+	// case split on "no recovery timeout" / "no switching delay" (constants for the executor)
+	if verifCase("rz") != 1 {
+		w.r = time.Duration(verifInt("recovery"))
+		verifAssume(w.r > 0 && w.r < 1<<40)
+	}
+	if verifCase("dz") != 1 {
+		w.d = time.Duration(verifInt("delay"))
+		verifAssume(w.d > 0 && w.d < 1<<40)
+	}
 	m := &multiEndpoint{recoveryTimeout: w.r, switchingDelay: w.d, endpoints: make(map[string]*endpoint)}
 	w.m = m
 	vNow = int64(verifInt("now"))
